@@ -158,13 +158,40 @@ def check_unit(spec_path, do_twins=True, keep=True):
     gpath = os.path.join(gdir, u["unit"] + ".rs")
     open(gpath, "w").write(text)
     res["generated"] = gpath
+    # follow references from the extracted text to module-level constants of the same source files: a name rustc
+    # cannot resolve (E0425, SCREAMING_CASE) is looked up as `const NAME: T = ..;` in the items' files and copied
+    extra = ""
+    auto_consts = []
+    r = run_verus(gpath, u.get("rlimit"))
+    for _round in range(4):
+        missing = sorted(set(re.findall(r"error\[E0425\]: cannot find value `([A-Z][A-Z0-9_]+)` in this scope", r["stderr"])))
+        added = False
+        for name in missing:
+            if name in auto_consts:
+                continue
+            for it in u["items"]:
+                c = rsx.find_const(REPO, it["relpath"], name)
+                if c:
+                    extra += c + "\n"
+                    auto_consts.append(name)
+                    added = True
+                    break
+        if not added:
+            break
+        try:
+            text, meta = vspec.generate(u, REPO, SPECS, extra=extra)
+        except Exception:
+            break
+        open(gpath, "w").write(text)
+        r = run_verus(gpath, u.get("rlimit"))
+    res["auto_consts"] = auto_consts
+    res["extra"] = extra
     res["assumption_sites"] = scan_assumptions(text)
     for it in meta["items"]:
         res["items"].append({"file": it["relpath"], "path": it["path"], "fn": it["fn"],
                              "src_lines": it["src_lines"], "contracted": it["contracted"],
                              "sha256": hashlib.sha256(it["original"].encode()).hexdigest()[:16],
                              "edits": it["edits"]})
-    r = run_verus(gpath, u.get("rlimit"))
     res["cmd"] = r["cmd"]
     res["stderr"] = r["stderr"][-20000:]
     js = r["json"]
@@ -222,7 +249,7 @@ def check_unit(spec_path, do_twins=True, keep=True):
         jobs = []
         for idx, it in enumerate(meta["items"]):
             if it["contracted"]:
-                ttext, _ = vspec.generate(u, REPO, SPECS, twin_of=idx)
+                ttext, _ = vspec.generate(u, REPO, SPECS, twin_of=idx, extra=extra)
                 tpath = os.path.join(gdir, "%s_twin%d.rs" % (u["unit"], idx))
                 open(tpath, "w").write(ttext)
                 jobs.append((it["label"], tpath))
